@@ -134,6 +134,14 @@ M('C16', 'c16-info-after-okay-swallowed', 'openhtf/plugs/usb/fastboot_protocol.p
   'one particular INFO packet is not forwarded')
 
 # ---------------------------------------------------------------- C15
+M('C15', 'c15-read-for-stream-by-id', 'openhtf/plugs/usb/adb_protocol.py',
+  "    while (not timeout.has_expired() and self._stream_transport_map.get(\n        stream_transport.local_id) is stream_transport):",
+  "    while (not timeout.has_expired() and\n           stream_transport.local_id in self._stream_transport_map):",
+  'a closed stream whose id was reused keeps reading the transport (F31 regression)')
+M('C15', 'c15-close-by-id', 'openhtf/plugs/usb/adb_protocol.py',
+  "      if (self._stream_transport_map.get(stream_transport.local_id) is\n          stream_transport):",
+  "      if stream_transport.local_id in self._stream_transport_map:",
+  'closing a stale handle removes the newer stream that reuses its id (F31 regression)')
 M('C15', 'c15-sign-non-token', 'openhtf/plugs/usb/adb_protocol.py',
   "      if msg.arg0 != cls.AUTH_TOKEN:\n        raise usb_exceptions.AdbProtocolError('Bad AUTH response: %s' % msg)\n",
   "",
@@ -572,6 +580,10 @@ M('C10', 'c10-attachment-live-cache-missing', 'openhtf/core/test_state.py',
   'attachments missing from the live phase view')
 
 # ---------------------------------------------------------------- C19
+M('C19', 'c19-finished-before-final-log', 'openhtf/core/test_executor.py',
+  "  def run(self) -> None:\n    try:\n      super(TestExecutor, self).run()\n    finally:",
+  "  def _thread_finished(self) -> None:\n    self._finished.set()\n\n  def run(self) -> None:\n    try:\n      super(TestExecutor, self).run()\n    finally:",
+  'completion signalled before the executor thread logged its last message (F30 regression)')
 M('C19', 'c19-uid-prefix-match', 'openhtf/util/logs.py',
   "    return match.group('test_uid') == self.test_uid",
   "    return match.group('test_uid').startswith(self.test_uid)",
